@@ -5,7 +5,6 @@ CONSTANTS
   MaxDepth = 3
   PosVals <- PosNone
   Thens = {"none", "assign", "export", "ro"}
-  UnsetAsCoded = FALSE
   MaxH = 100
 VIEW view
 INVARIANT TypeOK
